@@ -186,7 +186,10 @@ func walkEverywhere(spec *core.Spec, msg interface{}) {
 
 var junkArgs = []string{"undefined", "null", "0", "1", "-1", "0/0", "1/0", "\"\"", "\"chips\"", "\"?x\"", "\"* * * * *\"",
 	"true", "[]", "[1,[2]]", "{}", "{\"a\":1}", "{\"a\":\"?x\"}", "function(){}", "_", "_.bindings", "_.props", "_.out",
-	"(function(){var o={}; o.self=o; return o;})()", "new Date(0)", "Symbol && 1", "[undefined]", "{\"?k\":\"?v\"}"}
+	"(function(){var o={}; o.self=o; return o;})()", "new Date(0)", "Symbol && 1", "[undefined]", "{\"?k\":\"?v\"}",
+	// values whose export to Go runs script code
+	"{get a() { throw \"getter\"; }}", "{x: [{get a() { throw new Error(\"deep\"); }}]}", "{get a() { for(;;){} }}",
+	"{toString: function(){ throw \"ts\"; }}", "{valueOf: function(){ throw \"vo\"; }}"}
 
 func (g *G) jsStatement(depth int) string {
 	a := func() string { return g.pick(junkArgs) }
